@@ -192,6 +192,17 @@ def run_assemble(vector, modules, **kw):
 
 def entities(scn, vec, mods):
     """Wrap strings as entities of the generic classes of scn['enz'] (fresh pattern caches)."""
+    if scn.get("three_prime"):
+        # enzymes that leave 3' overhangs can only be used through signature-typed parts: one class per participant
+        from .checks import c04
+        k = scn["k"]
+        o = scn["ovs"]
+        V = c04.part3(scn["enz"], "vector", (o[k], o[0]))
+        Ms = [c04.part3(scn["enz"], "module", (o[i], o[i + 1])) for i in range(k)]
+        for c in [V] + Ms:
+            gen.fresh(c)
+        # `mods` may have been permuted by the caller only through scn['perm'] (applied later), so index i is module i here
+        return V(gen.crec(vec, "vec")), [Ms[i](gen.crec(m, "mod%d" % i)) for i, m in enumerate(mods)]
     M, V = gen.generic_classes(scn["enz"])
     gen.fresh(M)
     gen.fresh(V)
